@@ -13,7 +13,10 @@ RULE = ("address values of 10 classes (IPv4, IPv4 edges, IPv4-mapped, random IPv
         "and MAC bytes; cache files (lines as printed by the ARP scan, other spellings of the same address, extra / duplicate / "
         "null members, CRLF, unterminated last line, one bad line of 9 kinds at a random position, overlong line) with Get on both "
         "address forms; composition chains ARP frames -> processor -> JSON logger -> FillCache -> cache stage -> tcp/udp/icmp "
-        "filler with repeated addresses and gateway present/absent; getGatewayMAC on this host and on a multi-homed host (network "
+        "filler with repeated addresses and gateway present/absent, a third of them with errors logged through the same logger "
+        "and two in five with malformed ARP frames mixed in; 9 runs of 2000-4000 requests for distinct hosts through the cache stage "
+        "and ONE tcp / udp / icmp filler shared by 2-16 workers of NewPacketMultiGenerator (per frame: Ethernet destination = "
+        "resolution of the frame's own IPv4 destination); getGatewayMAC on this host and on a multi-homed host (network "
         "namespace with two uplinks of different metric and a stub interface, caches knowing both / own / other / no gateway); non-trivial = accepted text / loaded file with "
         "entries / chain with at least one reply; distinct by generator string")
 
@@ -186,7 +189,7 @@ def run(ctx):
                   sample=describe(o) if o["t"] in ("chain", "fill") else None)
         if o.get("spec"):
             report(ctx, o, o["spec"])
-    model_rows = [o for o in rows if o["t"] != "race"]
+    model_rows = [o for o in rows if o["t"] not in ("race", "mux")]   # judged on the implementation alone
     if model_ok and model_rows:
         nshards = 16 if quick else 64
         parts = [model_rows[i::nshards] for i in range(nshards)] if len(model_rows) >= nshards else [model_rows]
